@@ -211,6 +211,7 @@ def flush(ctx, report):
     # observer registered before the first set_active
     cls = idx.get_class(SCC, "SCCReader")
     init = cls.methods.get("_reset") or cls.methods.get("__init__")
+    init = idx.get_function(SCC, init.qualname, inline=True)
     report.covered(init)
     cl2 = PR.call_classifier({"add_change_observer": "OBSERVE", "set_active": "ACTIVATE"})
     paths = PR.paths_of_block(init.node.body, cl2)
